@@ -22,7 +22,14 @@ Wraps(x) ==
 \* images must not get a placeholder before their index (DESIGN 9a): a bare placeholder is wrapped into a set first
 OkWrap(x, w) == ~(w.k \in ImgKinds /\ \E j \in 1..Len(w.q) : w.q[j] = PH)
 
-LongFlat == {[k |-> "Conjunction", s |-> {W("w" \o ToString(i)) : i \in 1..LONGN}],
+\* a chain of symmetric statements (and one of sets) 40 deep: anything that visits BOTH operand orders at every level is exponential here
+RECURSIVE SymChain(_, _)
+SymChain(kd, m) == IF m = 0 THEN W("a") ELSE [k |-> kd, p |-> {SymChain(kd, m - 1), W("b")}]
+RECURSIVE SetChain(_)
+SetChain(m) == IF m = 0 THEN W("a") ELSE [k |-> "SetExtension", s |-> {SetChain(m - 1), W("b")}]
+LongFlat == {[k |-> "SetIntension", s |-> {SymChain("Similarity", 40)}], [k |-> "Conjunction", s |-> {SymChain("EquivalenceConcurrent", 40), W("c")}],
+             SymChain("Equivalence", 40), SetChain(40),
+             [k |-> "Conjunction", s |-> {W("w" \o ToString(i)) : i \in 1..LONGN}],
              [k |-> "Product", q |-> [i \in 1..LONGN |-> W("w" \o ToString(i % 7))]],
              [k |-> "ImageIntension", i |-> LONGN, q |-> [i \in 1..LONGN |-> IV("v" \o ToString(i))]],
              [k |-> "SetIntension", s |-> {INT(ToString(i * 1000003)) : i \in 1..LONGN}]}
